@@ -340,10 +340,15 @@ def compare(s, a, b, la, lb, upto, counts, near=0.05, limit_steps=()):
                     vc_ = n_.get("vcurve")
                     area_ = min((v1 - v0) / (l1 - l0) for (l0, v0), (l1, v1) in zip(vc_, vc_[1:])) if vc_ else math.pi / 4.0 * n_["diam"] ** 2
                     qmax_ = max(max(abs(float(a.node["demand"][n_["n"]][j])), abs(float(b.node["demand"][n_["n"]][j]))) for j in range(ns_))
-                    bound_ = 1.5 * qmax_ * s["opts"]["hyd"] / area_ + near
+                    bound_ = qmax_ * s["opts"]["hyd"] / area_ + near
                     apart_ = abs(float(a.node["pressure"][n_["n"]][ns_ - 1]) - float(b.node["pressure"][n_["n"]][ns_ - 1]))
-                    if apart_ > bound_:
-                        return "%s; no event-timing tie: tank %s ends the run %.3f m apart (%.3f m would be one step of its largest flow)" % (msg, n_["n"], apart_, bound_), i
+                    # ... AND the engines are still in different regimes at the end: a link of this tank is shut in one engine
+                    # and open in the other at both of the last two compared steps (well after the event)
+                    apart_regime = ns_ - 2 > i + 1 and any(
+                        all((float(a.link["status"][l_["n"]][j]) == 0) != (float(b.link["status"][l_["n"]][j]) == 0) for j in (ns_ - 1, ns_ - 2))
+                        for l_ in s["links"] if n_["n"] in (l_["a"], l_["b"]))
+                    if apart_ > bound_ and apart_regime:
+                        return "%s; no event-timing tie: tank %s ends the run %.3f m apart (one step of its largest flow is %.3f m) with a link of the tank shut in one engine only" % (msg, n_["n"], apart_, bound_), i
             if d < near or lim_ok:
                 counts["near_tie_truncations"] = counts.get("near_tie_truncations", 0) + 1
                 return "near-tie", i
